@@ -117,6 +117,15 @@ func gen(r *hx.Rng, tier string, i int) []hx.Zs {
 		shapes["overlap-histories"]++
 		return ti.GenOverlapHistory(r, 8)
 	}
+	if i%25 == 5 || i%25 == 14 {
+		// stored lists with repeated identifiers / elements without identifier, then writes on the Merge path
+		ti := flagged[(i/25)%len(flagged)]
+		fam := 3 * (i % 2)
+		perType[string(ti.Function)]++
+		perFamily[fmt.Sprint(fam)]++
+		shapes["duplicate-identifier-histories"]++
+		return ti.GenDuplicateHistory(r, fam)
+	}
 	if i%25 == 11 || i%25 == 19 {
 		// sub-element deletes on elements that share a value object / refused with a protected element
 		ti := flagged[(i/25)%len(flagged)]
